@@ -242,6 +242,42 @@ func (r *c13Runner) run(plan []string) string {
 			in = next
 			out = append(out, "S"+in.state())
 		default:
+			if strings.HasPrefix(item, "X") {
+				// X<j>: snapshot the current replica and Restore it onto a replica that has applied a
+				// DIFFERENT prefix of the log (the first j commands): a follower that is behind, or a
+				// replica rolled back to an older snapshot.  Restore must REPLACE its state.
+				j, err := strconv.Atoi(item[1:])
+				if err != nil || j < 0 || j > len(r.cmds) {
+					return "bad-op"
+				}
+				ctx := context.Background()
+				applied, err := in.sm.DurableAppliedIndex(ctx)
+				if err != nil {
+					panic(err)
+				}
+				if applied == 0 {
+					out = append(out, "X"+in.state()) // a snapshot at index 0 is never installed
+					continue
+				}
+				snap, err := in.sm.Snapshot(ctx)
+				if err != nil {
+					out = append(out, "X:snaperr")
+					continue
+				}
+				next := c13Open(c13NewDir())
+				for _, c := range r.cmds[:j] {
+					_, _ = next.apply([]c13Cmd{c})
+				}
+				if err := next.sm.Restore(ctx, multiraft.Snapshot{Index: applied, Term: 1, Data: snap.Data}); err != nil {
+					next.close(true)
+					out = append(out, "X:restoreerr")
+					continue
+				}
+				in.close(true)
+				in = next
+				out = append(out, "X"+in.state())
+				continue
+			}
 			n, err := strconv.Atoi(item)
 			if err != nil || n < 1 {
 				return "bad-op"
@@ -813,6 +849,21 @@ func genC13Scenario(g *Gen, family int) {
 		}
 		g.Op("run", "%s", strings.Join(p, ","))
 	}
+	// snapshot after the first k commands, restore onto a replica that applied the first j (j != k), go on
+	n := len(cmds)
+	for k := 1; k <= n; k++ {
+		for j := 0; j <= n; j++ {
+			if j == k || (n > 4 && !g.R.Chance(45)) {
+				continue
+			}
+			g.Count("plan:restore-onto-other-prefix")
+			plan := fmt.Sprintf("%d,X%d", k, j)
+			if k < n {
+				plan += fmt.Sprintf(",%d", n-k)
+			}
+			g.Op("run", "%s", plan)
+		}
+	}
 }
 
 // ---- structure-aware malformed payloads -------------------------------------------
@@ -1041,6 +1092,9 @@ func genC13(g *Gen) {
 				left -= sz
 				if left > 0 {
 					switch {
+					case k >= 1 && g.R.Chance(12):
+						plan = append(plan, fmt.Sprintf("X%d", g.R.Intn(n+1)))
+						g.Count("plan:restore-onto-other-prefix")
 					case k >= 1 && g.R.Chance(25):
 						plan = append(plan, "S")
 						g.Count("plan:snapshot-restore")
